@@ -166,9 +166,26 @@ func runC12(c *Ctx) {
 			if !ok || !dominatesInstr(push, d) && push.Block() != d.Block() {
 				return
 			}
+			// the pop may be made by a helper that receives the address of the field (ext_y3.go)
+			isPopCall := func(com *ssa.CallCommon) bool {
+				for i, a := range com.Args {
+					if isFieldAddr(a, ia.T, c.fld("intp.scanners")) && !com.IsInvoke() {
+						if _, ok := popThroughPointer(com.StaticCallee(), i); ok {
+							return true
+						}
+					}
+				}
+				return false
+			}
+			if isPopCall(&d.Call) {
+				okPop = true
+			}
 			for _, cl := range closuresOf(d.Call.Value) {
 				c.eachInstrDeep(cl, 2, func(i2 ssa.Instruction) {
 					if isPopStore(i2) {
+						okPop = true
+					}
+					if call, ok := i2.(*ssa.Call); ok && isPopCall(&call.Call) {
 						okPop = true
 					}
 				})
